@@ -1,151 +1,4 @@
-// ---- CHECKED: spec functions written from the statement of C05, and lemmas ----
-
-pub closed spec fn vlt(a: Version, b: Version) -> bool { vle(a, b) && a != b }
-
-/// C05: "'from A' is served for every version >= A, 'until B' for every version
-/// < B, 'from A until B' for A <= v < B (exactly A when A = B), and an
-/// unrestricted one for every version"
-pub closed spec fn in_range(r: ApiEndpointVersions, v: Version) -> bool {
-    match r {
-        ApiEndpointVersions::All => true,
-        ApiEndpointVersions::From(a) => vle(a, v),
-        ApiEndpointVersions::Until(b) => vlt(v, b),
-        ApiEndpointVersions::FromUntil(p) =>
-            if p.earliest == p.until { v == p.earliest } else { vle(p.earliest, v) && vlt(v, p.until) },
-    }
-}
-
-/// C05: "some version belongs to both"
-pub closed spec fn shared(a: ApiEndpointVersions, b: ApiEndpointVersions) -> bool {
-    exists|v: Version| in_range(a, v) && in_range(b, v)
-}
-
-pub closed spec fn mk_from_until(earliest: Version, until: Version) -> ApiEndpointVersions {
-    ApiEndpointVersions::FromUntil(OrderedVersionPair { earliest, until })
-}
-
-/// the ordered-pair type invariant (established by `from_until`, the only constructor)
-pub closed spec fn wf(r: ApiEndpointVersions) -> bool {
-    match r { ApiEndpointVersions::FromUntil(p) => vle(p.earliest, p.until), _ => true }
-}
-
-/// known finding F2 (known_findings.txt `empty_until`): `Until(u)` with no version below `u`
-pub closed spec fn empty_until(r: ApiEndpointVersions) -> bool {
-    match r { ApiEndpointVersions::Until(u) => !(exists|v: Version| vlt(v, u)), _ => false }
-}
-
-/// Inputs on which `overlaps_with` is *known* to disagree with `shared`
-/// (each class is one entry of /verif/known_findings.txt; the strict variant of
-/// the contract has no such carve-out and tells whether the finding is still there).
-pub closed spec fn known_exception(a: ApiEndpointVersions, b: ApiEndpointVersions) -> bool {
-    ||| (empty_until(a) && (b is All || b is Until))
-    ||| (empty_until(b) && (a is All || a is Until))
-}
-
-pub closed spec fn vmax(a: Version, b: Version) -> Version { if vle(a, b) { b } else { a } }
-pub closed spec fn vmin(a: Version, b: Version) -> Version { if vle(a, b) { a } else { b } }
-
-/// closed form of "some version lies in both", per pair of kinds, over end points only
-pub closed spec fn overlap_closed(a: ApiEndpointVersions, b: ApiEndpointVersions) -> bool {
-    match (a, b) {
-        (ApiEndpointVersions::All, ApiEndpointVersions::Until(u)) => exists|v: Version| vlt(v, u),
-        (ApiEndpointVersions::Until(u), ApiEndpointVersions::All) => exists|v: Version| vlt(v, u),
-        (ApiEndpointVersions::All, _) => true,
-        (_, ApiEndpointVersions::All) => true,
-        (ApiEndpointVersions::From(x), ApiEndpointVersions::From(y)) => true,
-        (ApiEndpointVersions::Until(x), ApiEndpointVersions::Until(y)) => exists|v: Version| vlt(v, vmin(x, y)),
-        (ApiEndpointVersions::From(x), ApiEndpointVersions::Until(u)) => vlt(x, u),
-        (ApiEndpointVersions::Until(u), ApiEndpointVersions::From(x)) => vlt(x, u),
-        (ApiEndpointVersions::From(x), ApiEndpointVersions::FromUntil(p)) => in_range(b, vmax(x, p.earliest)),
-        (ApiEndpointVersions::FromUntil(p), ApiEndpointVersions::From(x)) => in_range(a, vmax(x, p.earliest)),
-        (ApiEndpointVersions::Until(u), ApiEndpointVersions::FromUntil(p)) => vlt(p.earliest, u),
-        (ApiEndpointVersions::FromUntil(p), ApiEndpointVersions::Until(u)) => vlt(p.earliest, u),
-        (ApiEndpointVersions::FromUntil(p), ApiEndpointVersions::FromUntil(q)) =>
-            in_range(a, q.earliest) || in_range(b, p.earliest),
-    }
-}
-
-/// `shared` has a quantifier-free closed form; the witness is always an end point,
-/// which is why no density/discreteness axiom is needed.
-proof fn overlap_closed_form(a: ApiEndpointVersions, b: ApiEndpointVersions)
-    requires wf(a), wf(b)
-    ensures shared(a, b) == overlap_closed(a, b) // @closed_form
-{
-    broadcast use vle_total, vle_antisym, vle_trans;
-    let some: Version = arbitrary();
-    if overlap_closed(a, b) {
-        match (a, b) {
-            (ApiEndpointVersions::All, ApiEndpointVersions::Until(u)) => { let v = choose|v: Version| vlt(v, u); assert(in_range(a, v) && in_range(b, v)); }
-            (ApiEndpointVersions::Until(u), ApiEndpointVersions::All) => { let v = choose|v: Version| vlt(v, u); assert(in_range(a, v) && in_range(b, v)); }
-            (ApiEndpointVersions::All, ApiEndpointVersions::All) => { assert(in_range(a, some) && in_range(b, some)); }
-            (ApiEndpointVersions::All, ApiEndpointVersions::From(x)) => { assert(in_range(a, x) && in_range(b, x)); }
-            (ApiEndpointVersions::From(x), ApiEndpointVersions::All) => { assert(in_range(a, x) && in_range(b, x)); }
-            (ApiEndpointVersions::All, ApiEndpointVersions::FromUntil(p)) => { assert(in_range(a, p.earliest) && in_range(b, p.earliest)); }
-            (ApiEndpointVersions::FromUntil(p), ApiEndpointVersions::All) => { assert(in_range(a, p.earliest) && in_range(b, p.earliest)); }
-            (ApiEndpointVersions::From(x), ApiEndpointVersions::From(y)) => { let v = vmax(x, y); assert(in_range(a, v) && in_range(b, v)); }
-            (ApiEndpointVersions::Until(x), ApiEndpointVersions::Until(y)) => { let v = choose|v: Version| vlt(v, vmin(x, y)); assert(in_range(a, v) && in_range(b, v)); }
-            (ApiEndpointVersions::From(x), ApiEndpointVersions::Until(u)) => { assert(in_range(a, x) && in_range(b, x)); }
-            (ApiEndpointVersions::Until(u), ApiEndpointVersions::From(x)) => { assert(in_range(a, x) && in_range(b, x)); }
-            (ApiEndpointVersions::From(x), ApiEndpointVersions::FromUntil(p)) => { let v = vmax(x, p.earliest); assert(in_range(a, v) && in_range(b, v)); }
-            (ApiEndpointVersions::FromUntil(p), ApiEndpointVersions::From(x)) => { let v = vmax(x, p.earliest); assert(in_range(a, v) && in_range(b, v)); }
-            (ApiEndpointVersions::Until(u), ApiEndpointVersions::FromUntil(p)) => { assert(in_range(a, p.earliest) && in_range(b, p.earliest)); }
-            (ApiEndpointVersions::FromUntil(p), ApiEndpointVersions::Until(u)) => { assert(in_range(a, p.earliest) && in_range(b, p.earliest)); }
-            (ApiEndpointVersions::FromUntil(p), ApiEndpointVersions::FromUntil(q)) => {
-                if in_range(a, q.earliest) { assert(in_range(a, q.earliest) && in_range(b, q.earliest)); }
-                else { assert(in_range(a, p.earliest) && in_range(b, p.earliest)); }
-            }
-        }
-    }
-    if shared(a, b) {
-        let v = choose|v: Version| in_range(a, v) && in_range(b, v);
-        match (a, b) {
-            (ApiEndpointVersions::FromUntil(p), ApiEndpointVersions::FromUntil(q)) => {
-                if vle(p.earliest, q.earliest) { assert(in_range(a, q.earliest)); } else { assert(in_range(b, p.earliest)); }
-            }
-            (ApiEndpointVersions::Until(x), ApiEndpointVersions::Until(y)) => { assert(vlt(v, vmin(x, y))); }
-            _ => {}
-        }
-    }
-}
-
-/// two non-empty `Until` ranges always share a version (the smaller of two witnesses)
-proof fn until_until_share(a: ApiEndpointVersions, b: ApiEndpointVersions)
-    requires a is Until, b is Until, !empty_until(a), !empty_until(b)
-    ensures overlap_closed(a, b) // @nonempty_untils_share
-{
-    broadcast use vle_total, vle_antisym, vle_trans;
-    let x = a->Until_0; let y = b->Until_0;
-    let v1 = choose|v: Version| vlt(v, x);
-    let v2 = choose|v: Version| vlt(v, y);
-    let v = vmin(v1, v2);
-    assert(vlt(v, vmin(x, y)));
-}
-
-/// C05 "whichever of the two is registered first": the relation the contract of
-/// `overlaps_with` pins the result to is symmetric, and so is the carve-out.
-proof fn conflict_symmetric(a: ApiEndpointVersions, b: ApiEndpointVersions)
-    ensures
-        shared(a, b) == shared(b, a), // @shared_symmetric
-        known_exception(a, b) == known_exception(b, a), // @carve_out_symmetric
-{
-    if shared(a, b) { let v = choose|v: Version| in_range(a, v) && in_range(b, v); assert(in_range(b, v) && in_range(a, v)); }
-    if shared(b, a) { let v = choose|v: Version| in_range(b, v) && in_range(a, v); assert(in_range(a, v) && in_range(b, v)); }
-}
-
-/// C01/C02 (node level, any list length): among ranges that pairwise share no
-/// version, at most one contains a given version -- so "the first match" does not
-/// depend on the order of the list.
-proof fn unique_match(rs: Seq<ApiEndpointVersions>, v: Version, i: int, j: int)
-    requires
-        forall|a: int, b: int| 0 <= a < b < rs.len() ==> !shared(#[trigger] rs[a], #[trigger] rs[b]),
-        0 <= i < rs.len(), 0 <= j < rs.len(),
-        in_range(rs[i], v), in_range(rs[j], v),
-    ensures i == j // @at_most_one_match
-{
-    if i < j { assert(in_range(rs[i], v) && in_range(rs[j], v)); assert(shared(rs[i], rs[j])); }
-    if j < i { assert(in_range(rs[j], v) && in_range(rs[i], v)); assert(shared(rs[j], rs[i])); }
-}
-
+//@ include ../_common/spec_version.rs
 // ---- must-fail sentinels (vacuity guards): each of these has to be REJECTED ----
 proof fn sentinel_axioms_consistent()
     ensures false
